@@ -32,12 +32,17 @@ def run(tier: str) -> int:
              core.Cond("gates OR(A,B,C,XOR(X1,X2))", HARNESS, "check", {"k": 3, "kind": "gates", "extra": 1}, tmo),
              core.Cond("twin", HARNESS, "twin", {"k": 2}, tmo, expect_violation=True)]
     if tier == "thorough":
-        for fx in itertools.product((0, 1), repeat=7):
-            if sum(fx) <= 5:
-                conds.append(core.Cond(f"cover |U|=4 shard={fx}", HARNESS, "check", {"k": 4, "fix": list(fx), "max_sets": 5}, tmo))
-        for fx in itertools.product((0, 1), repeat=6):
-            if sum(fx) <= 5:
-                conds.append(core.Cond(f"gates OR(A,B,C,D) shard={fx}", HARNESS, "check", {"k": 4, "kind": "gates", "fix": list(fx), "max_sets": 5}, tmo))
+        # |U| = 4: families of 1..5 observed sets, given as increasing index tuples; sharded by size and first index
+        for kind in ("cover", "gates"):
+            for count in range(1, 6):
+                firsts = [None] if count <= 2 else list(range(0, 15 - count + 1))
+                for first in firsts:
+                    cfg = {"k": 4, "idx": 1, "count": count, "max_sets": 5}
+                    if kind == "gates":
+                        cfg["kind"] = "gates"
+                    if first is not None:
+                        cfg["first"] = first
+                    conds.append(core.Cond(f"{kind} |U|=4, {count} observed sets, first index {first}", HARNESS, "check_idx", cfg, tmo))
     return simple.run_conditions(chk, HARNESS, conds)
 
 
